@@ -553,23 +553,28 @@ def _both_directions(prog: Program, run: Run) -> None:
     R = "C01.R4"
     groups: List[Tuple[str, List[ClassInfo], Tuple[str, str]]] = []
     fac = prog.func("odxtools.parameters.createanyparameter:create_any_parameter_from_et")
-    pcls = []
-    for x in walk_no_nested(fac.node):
-        if isinstance(x, ast.Call) and isinstance(x.func, ast.Attribute) and x.func.attr == \
-                "from_et" and isinstance(x.func.value, ast.Name):
-            ci = prog.resolve_class_name(fac.module, x.func.value.id)
-            if ci is not None and ci not in pcls:
-                pcls.append(ci)
+    from .common import dispatch_table
+
+    def constructed(fn: FuncInfo) -> List[ClassInfo]:
+        """classes a factory can construct: `Cls.from_et(...)` calls and the classes of its
+        dispatch table (if/elif chain or dictionary)"""
+        out: List[ClassInfo] = []
+        for x in walk_no_nested(fn.node):
+            if isinstance(x, ast.Call) and isinstance(x.func, ast.Attribute) and \
+                    x.func.attr == "from_et" and isinstance(x.func.value, ast.Name):
+                ci = prog.resolve_class_name(fn.module, x.func.value.id)
+                if ci is not None and ci not in out:
+                    out.append(ci)
+        for cname in dispatch_table(prog, fn).values():
+            ci = prog.resolve_class_name(fn.module, cname)
+            if ci is not None and ci not in out:
+                out.append(ci)
+        return out
+    pcls = constructed(fac)
     groups.append(("parameter", pcls, ("_encode_positioned_into_pdu",
                                        "_decode_positioned_from_pdu")))
     dfac = prog.func("odxtools.createanydiagcodedtype:create_any_diag_coded_type_from_et")
-    dcls = []
-    for x in walk_no_nested(dfac.node):
-        if isinstance(x, ast.Call) and isinstance(x.func, ast.Attribute) and x.func.attr == \
-                "from_et" and isinstance(x.func.value, ast.Name):
-            ci = prog.resolve_class_name(dfac.module, x.func.value.id)
-            if ci is not None and ci not in dcls:
-                dcls.append(ci)
+    dcls = constructed(dfac)
     groups.append(("diag-coded type", dcls, ("encode_into_pdu", "decode_from_pdu")))
     # DDDS categories: classes of the list fields that derive from DopBase
     from ..types import ann_type, classes_of, elem_type
